@@ -340,11 +340,13 @@ func decodeGoToSexpHelper(r interface{}, depth int, env *Zlisp, preferSym bool) 
 			}
 		}
 		hash, err := MakeHash(pairs, typeName, env)
+		// report a rejected field before anything else: the error must
+		// not be overwritten by the result of SetHashKeyOrder.
+		panicOn(err)
 		if foundzKeyOrder {
 			err = SetHashKeyOrder(hash, keyOrd)
 			panicOn(err)
 		}
-		panicOn(err)
 		return hash
 
 	case []byte:
